@@ -44,10 +44,9 @@ type jsonAsync struct {
 }
 
 type Async struct {
-	routineStarted bool
-	Enable         bool
-	Threshold      int
-	Timeout        time.Duration
+	Enable    bool
+	Threshold int
+	Timeout   time.Duration
 }
 
 func (a *Async) MarshalJSON() ([]byte, error) {
@@ -77,6 +76,8 @@ type Schema struct {
 	db           *DB
 	object       Object
 	transformers []FieldDescriptor
+	// true while the routine flushing async writes is running
+	routineStarted bool
 
 	Fields      FieldDescMap `json:"fields"`
 	Extension   string       `json:"extension"`
